@@ -1847,6 +1847,15 @@ func (x *Exec) makeClosure(in *ssa.MakeClosure) {
 				binders["&"+fv.Name()] = x.materialize(x.val(in.Bindings[i]))
 			}
 		}
+		// captured variables renamed since the closure's contract was written
+		for o, n := range nameAliases(shortName(fn), fn) {
+			if v, ok := binders[n]; ok {
+				if _, taken := binders[o]; !taken {
+					binders[o] = v
+					binders["&"+o] = binders["&"+n]
+				}
+			}
+		}
 		caps := map[string]bool{}
 		for _, l := range splitList(cfc.Opts["capture"]) {
 			caps[l] = true
